@@ -1019,6 +1019,10 @@ evaluate() const {
   case T_requires_expr:
     return Result();
 
+  case T_lambda:
+    // A lambda is not something we can evaluate.
+    return Result();
+
   default:
     cerr << "**invalid operand**\n";
     abort();
